@@ -82,6 +82,8 @@ namespace c09
         {
             size_t n = r.chance(1, 6) ? 0 : r.below(c.max_elems + 1);
             if (c.big && std::is_arithmetic<T>::value && r.chance(1, 2)) { n = r.chance(1, 2) ? 65535 : 256 + r.below(65000); c.big = false; }
+            // containers of non-scalar elements get past 255 entries now and then (both bytes of the count matter)
+            if (c.big && !std::is_arithmetic<T>::value && c.depth == 0 && r.chance(1, 2)) { n = 256 + r.below(120); c.big = false; }
             std::vector<T> v;
             c.depth++;
             for (size_t i = 0; i < n; i++) v.push_back(Ref<T>::gen(r, c));
@@ -157,11 +159,14 @@ namespace c09
         static std::map<K, V> gen(kit::Rng &r, GenCfg &c)
         {
             size_t n = r.chance(1, 6) ? 0 : r.below(c.max_elems + 1);
+            bool many = c.big && c.depth == 0 && r.chance(1, 2);
+            if (many) { n = 300 + r.below(100); c.big = false; }
             std::map<K, V> m;
             c.depth++;
             for (size_t i = 0; i < n; i++)
             {
                 K k = Ref<K>::gen(r, c);
+                if (many && std::is_arithmetic<K>::value) { uint64_t bits = i * 2654435761ull; memcpy(&k, &bits, sizeof k < 8 ? sizeof k : 8); }
                 m[k] = Ref<V>::gen(r, c);
             }
             c.depth--;
@@ -210,7 +215,7 @@ namespace c09
     {
         std::string encoded;             // what the real writer produced for the whole stream
         std::vector<size_t> boundaries;  // offset after each value
-        bool has_container = false, empty_container = false, len_65535 = false, nested3 = false, nontrivial_elem = false, payload_64k = false;
+        bool has_container = false, empty_container = false, len_65535 = false, nested3 = false, nontrivial_elem = false, payload_64k = false, count_over_255 = false;
     };
 
     // stack scribbling: makes "decoded value depends on uninitialised memory" deterministic and visible
